@@ -33,7 +33,7 @@ func main() {
 			"buffered-state-non-empty?) tuples over the faults of non-trivial scenarios, where buffered-state-non-empty means: when the fault hit, " +
 			"the sources had handed out more items than the consumer had received (caller-goroutine part; the goroutine-backed part uses the same test at the first failed consumer call).")
 		r.Assume("a source that fails a Next call (dead context, transient error) has consumed nothing (vkit.ProbeStream honours ctx before consuming)")
-		r.Assume("user callbacks never fail in transient scenarios: by the statement a callback failure is the fatal kind, and what a retry after it does is not judged")
+		r.Assume("in the fault enumeration user callbacks never fail in transient scenarios (by the statement a callback failure is the fatal kind); the separate callback-retry group judges stream.While only, which on the clean tree holds its item across a failed predicate call: a retry must ask about the same item and continue the sequence; Filter, Map (they drop the item), MapStream and Reduce (no retry possible) are recorded, not judged")
 		r.Assume("stream.Runs is consumed as documented: every inner stream is drained to its End before the outer stream is asked again; a failed call is retried on the same stream")
 		r.Assume("a second consumer style of stream.Runs is judged because the library implements it: take the first j items (j in 0..2) of each run, never close the inner stream, and advance the outer stream, which skips the rest of the run itself; a failed call is retried on the same stream")
 		r.Assume("same/eq arguments are equivalence relations")
